@@ -132,3 +132,50 @@ REG.fn(TB, "tabu_search", prop="C19", ret="Result[U<T>]",
                   "implies(is_none(best_neighbor), best_neighbor_obj == inf())",
                   "implies(not is_none(best_neighbor), best_neighbor_obj == " + SF.format("val(best_neighbor)") + ")",
                   "evaluate.seen[initial]", "evaluate.evals >= 1"])})
+
+# ------------------------------------------------------------------ evolve (genetic algorithm)
+G = "solvor/genetic.py"
+REG.record("Individual", {"solution": "U<T>", "fitness": "real"})
+REG.callback("cross", ["U<T>", "U<T>"], "U<T>", pure=False)
+REG.callback("mut", ["U<T>"], "U<T>", pure=False)
+
+REG.fn(G, "evolve.tournament", prop="C19", ret="Individual",
+       captures={"pop": "list[Individual]", "rng": "rng", "tournament_k": "int"},
+       requires=["len(pop) >= 1", "tournament_k >= 1"],
+       ensures=["exists(i, 0 <= i < len(pop) and result == pop[i])"])
+
+FIT = "{0}.fitness == (f({0}.solution) if minimize else -f({0}.solution))"
+POP_OK = "forall(i, implies(0 <= i < len(pop), " + FIT.format("pop[i]") + "), trig=pop[i])"
+SFS = "(f(s) if minimize else -f(s))"
+REG.fn(G, "evolve", prop="C19", ret="Result[U<T>]",
+       types={"objective_fn": "fun:f", "crossover": "fun:cross", "mutate": "fun:mut", "on_progress": "opaque", "rng": "rng",
+              "mutation_rate": "real", "current_mutation_rate": "real", "_comp1": "list[Individual]",
+              "pop": "list[Individual]", "new_pop": "list[Individual]", "m1": "real", "m2": "real"},
+       requires=["len(population) >= 1", "tournament_k >= 1", "elite_size >= 0",
+                 "forall(s, f(s) < inf() and -f(s) < inf(), sorts={'s': 'U<T>'}, trig=f(s))"],
+       ensures=["result.objective == f(result.solution)",
+                "forall(s, implies(evaluate.seen[s], (result.objective <= f(s)) if minimize else (result.objective >= f(s))), sorts={'s': 'U<T>'}, trig=evaluate.seen[s])",
+                # every member of the starting population was evaluated (so the result is at least as good as each of them)
+                "forall(i, implies(0 <= i < len(population), evaluate.seen[population[i]]), trig=population[i])",
+                "result.evaluations == evaluate.evals"],
+       # ghost running minima: m1 over the initial population while it is evaluated, m2 over the children of one generation
+       ghost_before=[("pop = [Individual(", "m1", "inf()"), ("while len(new_pop) < pop_size", "m2", "inf()")],
+       loops={
+           1: LoopSpec(index="q", ghost={"m1": "min(m1, _comp1[len(_comp1) - 1].fitness)"}, invariants=[
+               "evaluate.sign == (1 if minimize else -1)", "len(_comp1) == q",
+               "forall(i, implies(0 <= i < q, " + FIT.format("_comp1[i]") + " and _comp1[i].solution == population[i] and evaluate.seen[population[i]]), trig=_comp1[i])",
+               "forall(s, implies(evaluate.seen[s], m1 <= " + SFS + "), sorts={'s': 'U<T>'}, trig=evaluate.seen[s])",
+               "m1 == inf() or exists(i, 0 <= i < q and _comp1[i].fitness == m1)"]),
+           2: LoopSpec(invariants=[
+               "evaluate.sign == (1 if minimize else -1)", "pop_size == len(population)", "len(pop) >= 1", POP_OK,
+               "best_fitness == (f(best_solution) if minimize else -f(best_solution))",
+               "forall(s, implies(evaluate.seen[s], best_fitness <= " + SFS + "), sorts={'s': 'U<T>'}, trig=evaluate.seen[s])",
+               "forall(i, implies(0 <= i < len(population), evaluate.seen[population[i]]), trig=population[i])"]),
+           3: LoopSpec(ghost={"m2": "min(m2, new_pop[len(new_pop) - 1].fitness)"}, invariants=[
+               "evaluate.sign == (1 if minimize else -1)", "pop_size == len(population)", "len(pop) >= 1", POP_OK,
+               "best_fitness == (f(best_solution) if minimize else -f(best_solution))",
+               "forall(i, implies(0 <= i < len(new_pop), " + FIT.format("new_pop[i]") + "), trig=new_pop[i])",
+               "forall(s, implies(evaluate.seen[s], best_fitness <= " + SFS + " or m2 <= " + SFS + "), sorts={'s': 'U<T>'}, trig=evaluate.seen[s])",
+               "m2 == inf() or exists(i, 0 <= i < len(new_pop) and new_pop[i].fitness == m2)",
+               "forall(i, implies(0 <= i < len(population), evaluate.seen[population[i]]), trig=population[i])"]),
+       })
